@@ -1359,6 +1359,13 @@ func randHist(r *RNG, maxW int) histSpec {
 // encoding are exactly the abbreviation's, and the string-encoding oracle as a
 // table of the distinct texts
 func compactTerm(v View, o Outcome) string {
+	vt, tbl := compactParts(v)
+	return "(CRenderT " + vt + " " + tbl + " " + o.Coq() + ")"
+}
+
+// compactParts: the view (with the cell abbreviations) and the table of the
+// distinct texts with their string encodings
+func compactParts(v View) (string, string) {
 	cell := func(c VCell) string {
 		if c.JSON != nil {
 			switch {
@@ -1392,7 +1399,7 @@ func compactTerm(v View, o Outcome) string {
 		}
 	}
 	var sb strings.Builder
-	sb.WriteString("(CRenderT (mkView " + cqNat(v.NCols) + " ")
+	sb.WriteString("(mkView " + cqNat(v.NCols) + " ")
 	if v.Header == nil {
 		sb.WriteString("None ")
 	} else {
@@ -1423,8 +1430,8 @@ func compactTerm(v View, o Outcome) string {
 			sk = append(sk, cqPair(cqNat(c), []string{"", "SkBool true", "SkBool false", "SkOther"}[x]))
 		}
 	}
-	sb.WriteString(cqList(sk) + ")) " + cqList(tbl) + " " + o.Coq() + ")")
-	return sb.String()
+	sb.WriteString(cqList(sk) + "))")
+	return sb.String(), cqList(tbl)
 }
 
 func runHistCase(hs histSpec) CaseOut {
@@ -1483,9 +1490,15 @@ func init() {
 			"late effects: a render-time callback (on the table before / after the cells, on a column, per cell) that sets a Skipable value or re-heads the table, under five prior states, and pairs of such callbacks (the view judged is the one after the callbacks ran); " +
 			"the same pointer item (a Stringer without exported fields) in several rows, mutated in between, with and without an update sweep: all step sequences up to length 3 (thorough 4) over 6 steps; all ordered pairs of {0.0, -0.0 (float64, float32), int 0, false} in one table; " +
 			"Cell.Update() on every body cell again (once, twice, after mutating another item) under all 64 Skipable assignments on columns 0..2 with empty texts of every kind (\"\", nil, Stringers returning \"\"); " +
+			"render histories, each executed in a fresh child process of its own and judged render by render (1-3 tables rendered one after the other through json.Render / a fresh wrapper / a wrapper made before the build / RenderTo into a plain writer, or one table extended and rendered again; Render must return no text with an error): " +
+			"every row sequence up to length 4 over {separator, zero-value tabular.Row handed to AddRow, row without cells, row of one cell} holding a zero-value row, and callers trying to add cells to zero-value rows and separators; " +
+			"items without an encoding because of their VALUE (NaN, +Inf, -Inf as float64, float32, named float types, *float64, inside slices, maps, structs, interfaces, pointers to structs; MarshalJSON / MarshalText methods that refuse or return ill-formed bytes; ill-formed json.Number and json.RawMessage; a time beyond year 9999) or type (chan, func, complex, pointer cycle, maps keyed by float or bool) " +
+			"in the only cell, in the first / last row, after a separator, in a skipable column (omitted when the text is empty, an error otherwise); every Go integer and float kind (named types, pointers, a nil pointer) at the edges of the number formatting (1e-6/1e-7, 1e21, shortest digits, float32, extremes); " +
+			"items that encode as the empty object or not depending on the VALUE (omitempty structs with and without a String method, pointers to them, nil-able members, maps, value- and pointer-receiver MarshalJSON, json.RawMessage): an empty and populated ones of one type in one table, in consecutive tables, after a render that failed part-way, under value and pointer types, omitted or shown by their text; " +
+			"has-an-encoding-or-not by value across renders (finite then non-finite and back, refusing encoders); 160 (thorough 4000) random such histories over the whole item language; " +
 			"plus a parser self-validation stream (mutated renderer outputs and hand-written snippets: the Coq parser must agree with json.Valid, the token stream and utf8.Valid). " +
 			"A case is non-trivial when rendering succeeded with at least one object; distinct = distinct (view, outcome)",
-		Exhaustive: "row/separator sequences up to length 4 over {separator,0,1,2 cells} x 16 skipable assignments on columns 0,1; up to length 3 x 37 assignments on columns 0..2 with at most two set (thorough: length 5 x 37); all 4^(N+1) Skipable assignments on columns 0..N for N<=3 (thorough 4); the listed one-step and chained widenings",
+		Exhaustive: "row/separator sequences up to length 4 over {separator,0,1,2 cells} x 16 skipable assignments on columns 0,1; up to length 3 x 37 assignments on columns 0..2 with at most two set (thorough: length 5 x 37); all 4^(N+1) Skipable assignments on columns 0..N for N<=3 (thorough 4); the listed one-step and chained widenings; row sequences up to length 4 over {separator, zero-value row, row without cells, one-cell row} with a zero-value row (each in a fresh process)",
 		Gen: func(r *RNG, tier string) []json.RawMessage {
 			var out []json.RawMessage
 			add := func(ts TableSpec) { out = append(out, mustJSON(ts)) }
@@ -1642,6 +1655,18 @@ func init() {
 			for i := 0; i < nbad; i++ {
 				add(jsonRandTable(r, true))
 			}
+			// render histories, each in a fresh process (c07_more.go): zero-value rows, items refused
+			// by value, numbers of every kind, items encoding as {} or not by value across renders
+			for _, js := range jxFamilies(r, tier) {
+				out = append(out, mustJSON(js))
+			}
+			njx := 160
+			if tier == "thorough" {
+				njx = 4000
+			}
+			for i := 0; i < njx; i++ {
+				out = append(out, mustJSON(jxRandSpec(r)))
+			}
 			// parser self-validation
 			for _, s := range jsonSnippets {
 				out = append(out, mustJSON(parseSpec{Parse: []byte(s), Q: fmt.Sprintf("%q", s)}))
@@ -1685,6 +1710,13 @@ func init() {
 				}
 				return runHistCase(hs)
 			}
+			if _, isJx := probe["jx"]; isJx {
+				var js jxSpec
+				if err := json.Unmarshal(spec, &js); err != nil {
+					panic(err)
+				}
+				return runJxCase(js)
+			}
 			var ts TableSpec
 			if err := json.Unmarshal(spec, &ts); err != nil {
 				panic(err)
@@ -1715,6 +1747,17 @@ func init() {
 				}
 				var out []json.RawMessage
 				for _, c := range hs.shrinks() {
+					out = append(out, mustJSON(c))
+				}
+				return out
+			}
+			if _, isJx := probe["jx"]; isJx {
+				var js jxSpec
+				if json.Unmarshal(spec, &js) != nil {
+					return nil
+				}
+				var out []json.RawMessage
+				for _, c := range js.shrinks() {
 					out = append(out, mustJSON(c))
 				}
 				return out
